@@ -105,6 +105,7 @@ def run(ctx):
     ctx.not_decided = NOT
     prog = ctx.prog("cbh_storage", "cbh_codec")
     ctx.rule("R1.order", "File::create(temp) -> write_all -> flush in the inner block (each dominating the next, same file); every non-error return of the inner block passes flush", floor=3)
+    ctx.rule("R1.only-temp-is-written", "inside write_atomic every creating / writing primitive works on the path returned by temp_path_for(target); the target itself is only ever the destination of the rename", floor=1)
     ctx.rule("R1.rename-after-close", "the inner block future is awaited to completion before rename is created; rename is reachable only on the Ok arm of the inner result; no file effect follows rename on the success path", floor=3)
     ctx.rule("R2.single-writer", "file creating/writing/renaming primitives in cbh_storage::local occur only inside write_atomic", floor=1)
     ctx.rule("R2.publish-through", "put and put_overwrite call write_atomic exactly once on their success path", floor=2)
@@ -119,6 +120,7 @@ def run(ctx):
     ctx.rule("R6.codec-pairing", "compress exactly once on each writer's success path; decompress exactly once on get's success path; the reused per-thread codec state is reset unconditionally before every use", floor=5)
     segmentation_rule(ctx, prog)
     codec_state_rule(ctx, prog)
+    only_temp_written(ctx, prog)
 
     local = [b for b in prog.bodies if b.key.startswith("cbh_storage::local::") or "cbh_storage::local::LocalStorage as" in b.key]
     for b in local:
@@ -555,6 +557,8 @@ def run(ctx):
             # every fs path argument derives from key_path's result
             src_ok = True
             for bb, t, k in fsc:
+                if not t["args"]:
+                    continue   # e.g. OpenOptions::new(): the path arrives at a later builder call
                 sl = Slice(b).run(t["args"][0])
                 if not any(kk == kp.key for kk, _, _ in sl["calls"]):
                     src_ok = False
@@ -673,6 +677,33 @@ def codec_state_rule(ctx, prog):
         ok = pc == (1, 1) and uncond and before and same
         ctx.ob("R6.codec-pairing", f"{fn.split('::')[-1]}.reset-before-use", ok, b.loc(),
                f"{reset}() on the per-thread state: per path {pc}, unconditional {uncond}, dominates every {work}() {before}, same state object {same}")
+
+
+def only_temp_written(ctx, prog):
+    wa = prog.one("local::write_atomic::{closure#0}")
+    if wa is None:
+        ctx.missing("R1.only-temp-is-written", "write_atomic coroutine")
+        return
+    bodies = [wa] + prog.closures_of(wa)
+    n = 0
+    bad = []
+    for bd in bodies:
+        for bb, t, k in fs_calls(bd):
+            leaf = k.split("::")[-1]
+            if leaf in ("rename", "remove_file", "try_exists", "metadata", "create_dir_all", "read", "read_dir", "new"):
+                continue
+            if not t["args"]:
+                continue
+            n += 1
+            sl = Slice(bd).run(t["args"][0])
+            via_temp = any(kk.endswith("temp_path_for") for kk, _b, _t in sl["calls"]) or bool(sl["upvars"]) and any(
+                any(kk.endswith("temp_path_for") for kk, _b, _t in Slice(wa).run(o)["calls"]) for _bb2, ops_ in __import__("vf.analysis", fromlist=["closure_capture_ops"]).closure_capture_ops(wa, bd.key) for o in ops_)
+            on_file = "File" in callee_key(t["callee"]) and leaf not in ("create", "open")
+            if not (via_temp or on_file):
+                bad.append(f"{k.split('::')[-2]}::{leaf} at {bd.loc(t['span'])}")
+    ctx.ob("R1.only-temp-is-written", "write_atomic", n >= 1 and not bad, wa.loc(),
+           f"{n} creating/writing call(s); on a path that is not the temp path: {bad or 'none'}" +
+           ("" if not bad else " - writing the target in place truncates it first: an interrupted write leaves an empty or partial object where a complete one (or nothing) was"))
 
 
 def segmentation_rule(ctx, prog):
